@@ -49,6 +49,12 @@ class NamingScenario(StateScenario):
         h["p_fault"] = 0.0
         h["ncfg"] = 1
         h["p_bad_arg"] = stream(seed, "c16").choice([0.0, 0.15, 0.3])
+        keys = {f["key"] for f in h["sd"]["root"]["fields"]}
+        if stream(seed, "c16-pair").random() < 0.3 and not keys & {"vhi", "vlo"}:
+            # two fields whose validators read each other ("low must not exceed high"): options are applied one by one, in
+            # the order the parser declares them, each through normal validation against the configuration as it is then
+            h["sd"]["root"]["fields"][:0] = [{"kind": "int", "key": "vhi", "o": {"default": 100}, "validator": "ge:vlo"},
+                                             {"kind": "int", "key": "vlo", "o": {"default": 10}, "validator": "le:vhi"}]
         # a third of the schemas are bound to the environment, with some of the variables set to valid values: options
         # supplied on the command line are assignments and override them like any other value
         erng = stream(seed, "c16-env")
@@ -66,6 +72,8 @@ class NamingScenario(StateScenario):
                 if list(names.values()).count(name) > 1:
                     continue          # two fields sharing one derived name: a value valid for one need not be valid for the other
                 node = schema.node_at(sd, path)
+                if node is not None and str(node.get("validator", "")).startswith(("ge:", "le:")):
+                    continue
                 if node is None or node["kind"] not in STR_KINDS + INT_KINDS + BOOL_KINDS + ("float",) or node["kind"] in ("include", "filename", "featureflag"):
                     continue
                 if erng.random() < 0.5:
@@ -79,7 +87,14 @@ class NamingScenario(StateScenario):
 
     def start(self, header, world, rec):
         world.env.update(header.get("env", {}))
-        return super().start(header, world, rec)
+        st = super().start(header, world, rec)
+        def live(name):
+            try:
+                return getattr(st.cfgs[0], name)
+            except Exception:  # noqa: BLE001
+                return None
+        st.ctx.live = live
+        return st
 
     def _want(self, st, rng):
         return "valid"
@@ -138,11 +153,21 @@ class NamingScenario(StateScenario):
         names = sorted(opts)
         rng.shuffle(names)
         k = rng.choice([0, 0, 1, 1, 2, 3, len(names)])
+        if "vhi" in opts and "vlo" in opts and rng.random() < 0.35:
+            # both ends moved at once: each new value is only acceptable once the other one (declared first) is in place
+            hi = getattr(cfg, "vhi", None)
+            if isinstance(hi, int):
+                argv += ["--vhi", str(hi + 100), "--vlo", str(hi + 50)]
+                supplied += ["vhi", "vlo"]
+                names = [n for n in names if n not in ("vhi", "vlo")]
         for dest in names[:k]:
             how, f = opts[dest]
             if how == "bool":
                 on = rng.random() < 0.5
                 argv.append(option_of(dest) if on else "--no-" + option_of(dest)[2:])
+                if rng.random() < 0.2:
+                    # both switches of one field (a wrapper's default followed by the user's choice): the last one counts
+                    argv.append(option_of(dest) if not on else "--no-" + option_of(dest)[2:])
                 supplied.append(dest)
             else:
                 bad = rng.random() < st.h.get("p_bad_arg", 0)
@@ -319,6 +344,23 @@ class NamingScenario(StateScenario):
         except SystemExit:
             rec.log("cmdline", "argparse-usage-error")
             rec.probe("cmdline-usage-error")
+            # every command line here consists of generated options with their values: the generated parser must take it
+            table = self.scalar_options(st)
+            known = {}
+            for dest, (how, f) in table.items():
+                known[option_of(dest)] = how
+                if how == "bool":
+                    known["--no-" + option_of(dest)[2:]] = "bool"
+            i, wellformed = 0, True
+            while i < len(argv):
+                how = known.get(argv[i])
+                if how is None or (how != "bool" and (i + 1 >= len(argv) or argv[i + 1].startswith("-"))):
+                    wellformed = False
+                    break
+                i += 1 if how == "bool" else 2
+            if wellformed:
+                rec.check()
+                rec.fail("C16/parser", "C16/generated-parser-rejects-command-line", "the generated parser refused %r, which uses only generated options" % (argv,))
             return
         want = self.scalar_options(st)
         # what did the user supply?  walk argv with the model's option table
@@ -346,6 +388,7 @@ class NamingScenario(StateScenario):
         ign = [ignore] if isinstance(ignore, str) else list(ignore or [])
         effective = {d: v for d, v in supplied.items() if d not in ign}
         s0 = snapshot.snap(cfg, st.serials)
+        pre_pair = {n: getattr(cfg, n, None) for n in ("vhi", "vlo")} if "vhi" in want and "vlo" in want else None
         if op.get("method") and hasattr(type(cfg), "cmdline_args_override"):
             with schema._quiet():
                 _, err = self._call(lambda: cfg.cmdline_args_override(ns, ignore=ignore))     # the method spelling
@@ -356,7 +399,25 @@ class NamingScenario(StateScenario):
         rec.kind("n%d:%s" % (min(len(supplied), 4), "ign" if ign else "noign"))
         rec.relevant += 1
         rec.check()
-        verdicts = {d: model.norm(want[d][1], v, st.ctx) for d, v in effective.items()}
+        verdicts = {d: model.norm(want[d][1], v, st.ctx) for d, v in effective.items() if d not in ("vhi", "vlo") or pre_pair is None}
+        if pre_pair is not None:
+            # the pair is judged by applying the supplied options one by one in declaration order (vhi, then vlo)
+            cur, stopped = dict(pre_pair), False
+            for d, sib, ge in (("vhi", "vlo", True), ("vlo", "vhi", False)):
+                if d not in effective:
+                    continue
+                base = model.norm({"kind": "int", "o": {}}, effective[d], st.ctx)
+                if stopped or not isinstance(base, OK):
+                    verdicts[d] = REJ if not stopped else model.UNSPEC
+                    stopped = True
+                    continue
+                s_ = cur.get(sib)
+                bad = isinstance(s_, int) and ((base.v < s_) if ge else (base.v > s_))
+                verdicts[d] = REJ if bad else base
+                if bad:
+                    stopped = True
+                else:
+                    cur[d] = base.v
         any_rej = any(r == REJ for r in verdicts.values())
         if err is None and any_rej:
             rec.fail("C16/override", "C16/invalid-argument-accepted", "an invalid command-line value was applied without error: %r" % (argv,))
